@@ -421,6 +421,10 @@ type verdict struct {
 	bystander string // "" = fine, otherwise what went wrong with the bystander while the process lived
 }
 
+// metricsDupID: two collection keys that differ only in bytes that are not valid
+// UTF-8 get the same replacement label; the registry then refuses every scrape.
+const metricsDupID = "metrics-scrape-500-colliding-keys"
+
 // scrapeMetrics does GET /metrics; "" when answered 200 with a body.
 func scrapeMetrics(addr string) string {
 	c, err := net.DialTimeout("tcp", addr, 5*time.Second)
@@ -442,6 +446,9 @@ func scrapeMetrics(addr string) string {
 		}
 	}
 	if !strings.HasPrefix(string(resp), "HTTP/1.1 200") {
+		if i := strings.Index(string(resp), "\r\n\r\n"); i > 0 && strings.HasPrefix(string(resp), "HTTP/1.1 500") {
+			return "answered 500: " + clip(strconv.QuoteToASCII(string(resp[i+4:])), 600)
+		}
 		return "answered " + clip(strconv.QuoteToASCII(string(resp)), 80)
 	}
 	if !strings.Contains(string(resp), "tile38_") {
@@ -490,7 +497,14 @@ func (g *guard) check() verdict {
 	// every 8th input (and the first ones after a start) the bystander also scrapes /metrics
 	if problem == "" && g.metricsAddr != "" && (g.inputs <= 2 || g.inputs%8 == 0 || g.alwaysScrape) {
 		g.scrapes++
-		if p := scrapeMetrics(g.metricsAddr); p != "" {
+		if p := scrapeMetrics(g.metricsAddr); strings.Contains(p, "was collected before with the same name and label values") {
+			// the process is fine but monitoring is not: a finding of its own
+			if ev.KnownActive(metricsDupID) {
+				g.c.Excluded(metricsDupID)
+				return verdict{restart: true} // a fresh process forgets the colliding keys
+			}
+			problem = metricsDupID + ": GET /metrics " + clip(p, 400)
+		} else if p != "" {
 			problem = "bystander-disconnected: metrics scrape: " + p
 			// the registry panics on its own goroutine: give the process a moment to die
 			time.Sleep(100 * time.Millisecond)
@@ -921,6 +935,33 @@ func TestC16_Probes(t *testing.T) {
 	bystanderBudget = 3 * time.Second
 	defer func() { bystanderBudget = oldBudget }()
 	g.alwaysScrape = true // every probe is followed by a /metrics scrape
+	// two keys whose invalid bytes collapse to the same metrics label
+	{
+		c.Case()
+		for _, k := range []string{"\xfe\xfe", "\xff\xfe"} {
+			g.ctl.Do("SET", k, "a", "POINT", "1", "1")
+		}
+		p := scrapeMetrics(g.metricsAddr)
+		for _, k := range []string{"\xfe\xfe", "\xff\xfe"} {
+			g.ctl.Do("DROP", k)
+		}
+		switch {
+		case strings.Contains(p, "was collected before with the same name and label values"):
+			what := "SET \"\\xfe\\xfe\" a POINT 1 1 and SET \"\\xff\\xfe\" a POINT 1 1 (two legal keys that differ only in bytes that are not valid UTF-8) get the same label \"\\ufffd\" in Collect (metrics.go, strings.ToValidUTF8); the registry then answers EVERY GET /metrics with 500 until one of the collections is dropped, also after a restart: " + clip(p, 300)
+			if ev.KnownActive(metricsDupID) {
+				c.Known(metricsDupID, what)
+			} else {
+				c.Violation(metricsDupID, what, map[string]any{"cmds": []string{`SET "\xfe\xfe" a POINT 1 1`, `SET "\xff\xfe" a POINT 1 1`, "GET /metrics"}})
+				t.Errorf("VIOLATION-CANDIDATE key=%s: %s", metricsDupID, what)
+			}
+			c.Label("probe-reproduces:" + metricsDupID)
+		case p != "":
+			c.Violation("bystander-affected", "metrics scrape after two keys with invalid UTF-8: "+p, nil)
+			t.Errorf("VIOLATION-CANDIDATE key=bystander-affected: metrics scrape: %s", p)
+		default:
+			c.Label("probe-ok:" + metricsDupID)
+		}
+	}
 	var gNoAOF *guard
 	defer func() {
 		if gNoAOF != nil {
